@@ -56,10 +56,10 @@ META = {
  "C02": dict(
    text="On the real SHA one-shot wrappers of every variant (sha_generic instantiations) the FIPS 180-4 framing is verified for every message content over a bounded length range "
         "that contains every padding threshold: block count, every byte of every padded block (ghost block/byte indexes), 64/128-bit big-endian length field, the algorithm's initial hash "
-        "value, big-endian truncated digest, nothing written past the digest; compression functions are uninterpreted. Bounded in message length (stated), so reported as a bounded stand-in.",
-   note="Compression kernels, HMAC/CMAC/XCBC/ZUC/SNOW3G/KASUMI/Poly1305/CRC managers are NASM and not decided. The multi-buffer SHA manager in C (sha_mb_mgr.h) is not covered yet.",
-   technique="CBMC on the real wrappers with logging models of the NASM one-block kernels; FIPS 180-4 padding oracle written from the standard; loops unwound for the stated bound",
-   category="model_checking", design="DESIGN.md §3 C02"),
+        "value, big-endian truncated digest, nothing written past the digest; compression functions are uninterpreted. Those units are bounded in message length (stated); KASUMI f9 (C code shared by every variant): chaining A[n] = KASUMI_IK(A[n-1] xor M[n]), zero-filled tail, final KASUMI under IK xor KM of the xor of all A[n], MAC = left 32 bits, for every accepted length (loop contract). the *_any_len units prove the same framing for messages of ANY length: the full-block loop of sha_generic() is closed by a loop contract (blocks compressed in place, in order, block count), the padding blocks are checked byte by byte with a ghost index, digest big-endian and truncated (the initial-hash-value clause stays with the bounded units). Multi-buffer SHA manager in C (sha_mb_mgr.h, used by every variant): sha{1,256,512}_create_extra_blocks is proved equal to its functional contract (tail | 0x80 | zeros | big-endian bit length, lane redirected, nothing else in the manager touched) for every lane index, every tail length and content - complete, loops bounded by the block size; the scheduler submit_flush_job_sha_* then runs with that contract substituted, on the real 2-lane instances, for two jobs of different lengths plus flush: per job the blocks fed to the kernel are the FIPS 180-4 padding of ITS message and the tag is the big-endian image of ITS lane's digest column (bounded history, stated).",
+   note="Compression kernels, HMAC/CMAC/XCBC/ZUC/SNOW3G/KASUMI/Poly1305/CRC managers are NASM and not decided.",
+   technique="CBMC on the real wrappers with logging models of the NASM one-block kernels; FIPS 180-4 padding oracle written from the standard; loop contract (per-run generated) on the block loop for the any-length units, loops unwound for the stated bound in the others",
+   category="proof", design="DESIGN.md §3 C02"),
  "C20": dict(
    text="Deductive over all verdict assignments to all known-answer vectors: in the real self_test.c gating code every vector of every table runs exactly once in table order, the result is 1 iff "
         "every comparison passed, IMB_FEATURE_SELF_TEST is announced and IMB_FEATURE_SELF_TEST_PASS is set iff the result is 1 regardless of its previous value, no other feature bit changes, "
@@ -67,6 +67,62 @@ META = {
    note="Per-vector KAT functions are replaced by arbitrary-verdict models; that a corrupted kernel changes its output is a fact about NASM kernels.",
    technique="CBMC on the real gating code with verdict models substituted by goto-instrument --replace-calls; vector tables constant so loops are completely unwound",
    design="DESIGN.md §3 C20"),
+ "C01": dict(
+   text="For the cipher modes implemented in C (DES-CBC, 3DES-CBC, DOCSIS-DES; bound by all SSE and AVX2 variants): the real block function enc_dec_1 is proved equal to a FIPS 46-3 "
+        "transcription (itself validated on the standard's worked example) for all 2^64 blocks, all round-key sets and both directions; the real DES-CBC and 3DES-CBC drivers are proved against FIPS 81 chaining / the TDEA E-D-E composition for messages of ANY length and every block index, in place and out of place, "
+        "by loop contracts (inductive invariants, no unwinding) over a checking contract model of the block function; the DOCSIS residual-CFB drivers and a whole-buffer view of the CBC drivers additionally on short messages (bounded in the number of blocks). With C11's key-schedule proof this fixes the bytes written for every key/IV/content. KASUMI f8 (C code shared by every variant): the chaining of the real kasumi_f8_1_buffer - modifier under CK xor KM, block n = KASUMI(A xor BLKCNT(n) xor KS[n-1]), 1 + ceil(len/8) block calls - is proved for EVERY accepted length by a loop contract (inductive invariant, no unwinding), and the output bytes (xor with the own block's keystream, partial last block, nothing beyond the length, in place or not) on short messages.",
+   note="All other ciphers (AES modes, ChaCha20, ZUC, SNOW3G, SNOW-V, SM4, AVX512 DES) are NASM/intrinsics: not decided; the KASUMI block function itself (TS 35.202) is replaced by a checking contract model, KASUMI n-buffer variants are not covered. NASM helpers modelled. DOCSIS / whole-buffer chaining units bounded (coverage.bounded).",
+   technique="CBMC equivalence proof of the real C block function against a FIPS 46-3 specification; uninterpreted-function abstraction for the chaining modes; loop contract (inductive invariant attached from a per-run generated --loop-contracts-file) for KASUMI f8 and the DES/3DES-CBC block loops",
+   design="DESIGN.md §3 C01"),
+ "C11": dict(
+   text="The real des_key_schedule equals FIPS 46-3 PC-1 / cumulative shifts / PC-2 for all 2^64 keys (parity bits ignored), for an arbitrary round (ghost index), in the 6-bits-per-byte layout "
+        "that the block-function proof (C01) consumes; NULL arguments refused with the documented error codes; temporaries cleared.",
+   note="AES, SM4, KASUMI, SNOW3G key schedules, CMAC sub-keys, GHASH key powers are assembly: not decided. IV generators / HMAC ipad-opad are covered as their units are added.",
+   technique="CBMC equivalence proof against a FIPS 46-3 transcription, loops completely unwound",
+   design="DESIGN.md §3 C11"),
+ "C04": dict(
+   text="Stage-level independence in C: every flush of either stage hands back only a job whose stage was outstanding (so no stage is run twice), a stage adds exactly its own bit to the status of the job it hands back, "
+        "and the sequencing functions submit each job to each stage at most once, in its own chain order, as itself. Lane isolation inside the NASM out-of-order managers is assumed (abstract lane model); for the out-of-order SHA manager written in C (sha_mb_mgr.h) it is checked on the real code: with two jobs of different lengths in flight each job is completed exactly once, from its own message bytes and its own digest column, whatever the other lane holds, and the padding builder touches no other lane (bounded history).",
+   note="Co-scheduled-job independence inside the NASM multi-buffer managers (min-length scheduling, lane copies) is not decidable by C contracts.",
+   technique="CBMC on the real dispatcher / sequencing code with generated kernel stubs and an abstract lane model; call-site obligations",
+   design="DESIGN.md §3 C04"),
+ "C03": dict(
+   text="C glue of the combined modes that is written in C: ChaCha20-Poly1305 update/finalize hand Poly1305 the ciphertext (taken from the source before an in-place decrypt overwrites it), then the "
+        "(AAD length, ciphertext length) block as two little-endian words, write exactly tag_len tag bytes and wipe the key material; DOCSIS-DES residual termination uses CFB of the previous "
+        "ciphertext block or the IV, in place or not.",
+   note="AES-GCM, AES-CCM, PON, SNOW-V-AEAD, SM4-GCM kernels and the one-shot ChaCha20-Poly1305 path are NASM or not yet under contract: not decided.",
+   technique="CBMC on the real glue code with logging models of the NASM kernels (ghost stream position)", design="DESIGN.md §3 C03"),
+ "C07": dict(
+   text="Memory-safety and frame obligations of the C functions under contract: pointer/bounds checks over fresh exact-size objects (parameter check, ring operations, error plumbing, reset functions, "
+        "allocator helpers, IV generators, HMAC pad derivation), 'nothing written past the output / the source left intact' assertions for SHA wrappers, DES chaining, ChaCha20-Poly1305 tag and scratch copies.",
+   note="SIMD tail loads/stores live in NASM: not decided. Only the functions listed in evidence are covered.",
+   technique="CBMC --pointer-check/--bounds-check and DFCC assigns clauses on the real C code", design="DESIGN.md §3 C07"),
+ "C09": dict(
+   text="Agreement of entry points that is visible in C: the burst API dispatches on suite identifiers which are proved equal to (cipher table index, hash algorithm) of the descriptor, so CALL_* reach the "
+        "same dispatch-table entries as the job API; a burst whose identifier does not match its descriptor is refused (bounded burst unit). Synchronous cipher and hash bursts (mb_mgr_burst.h) on the real per-variant unit, bounded burst size: the call returns n with EVERY job COMPLETED, each job is given to its manager exactly once and handed back once (multi-job manager model), nothing stays parked, only descriptors of the burst are touched, and every kernel that runs is one of the burst's cipher mode / key size / direction resp. hash algorithm - the binding the single-job API is proved to make under C06, so both entry points run the same primitive on the same work item; unsupported modes process nothing and report IMB_ERR_CIPH_MODE / IMB_ERR_HASH_ALGO.",
+   note="The AEAD (CCM) burst, the checked variants' per-job validation loop and the direct NASM entry points (GCM/SHA one-shot, ZUC/SNOW3G/KASUMI n-buffer, CRC) are not under contract: not decided. Equality of OUTPUT BYTES across entry points reduces to the kernels (NASM), which are not analysed.",
+   technique="CBMC call-site precondition checking on the real dispatch tables; synchronous bursts against a multi-job manager model with generated kernel stubs (bounded burst size)", design="DESIGN.md §3 C09"),
+ "C10": dict(
+   text="Inductive invariant proof on the real ChaCha20-Poly1305 update/finalize code: with remain_ct_bytes = N mod 16, the scratch pad holding the unhashed ciphertext bytes and hash_len = N, one update "
+        "call with any segment length (0..48 per call in the unit) hands Poly1305 exactly the newly completed 16-byte multiples of (pending tail ++ segment ciphertext) in order and re-establishes the invariant; "
+        "finalize hashes the tail and the length block; the job-API last-segment call (complete_chacha20_poly1305) merges a short final segment with the pending partial block so that only the last data update is short. Hence the Poly1305 input is the same for every partition into any number of segments. AES-GCM SGL jobs (submit_gcm_sgl_enc/dec): for every job form, key size, direction and ANY number of segments (loop contracts, unbounded) the IMB_SGL_ALL form issues exactly init, one update per segment in order with that segment's own (out, in, len), finalize - the same primitive sequence as the INIT/UPDATE/COMPLETE job sequence.",
+   note="Key-stream continuity across segments and the GCM carry state between update calls are inside NASM kernels: assumed. Segment length per call bounded to 48 bytes in the unit (labelled bounded).",
+   technique="CBMC check of a representation invariant (induction over calls) with ghost stream-position index; loop contracts (per-run generated --loop-contracts-file) with checking contract models of the GCM primitives for the SGL segment loops", category="proof", design="DESIGN.md §3 C10"),
+ "C13": dict(
+   text="C-visible SAFE_DATA residue: on every path the C helpers clear their key-derived temporaries (DES key-schedule C/D/T, DES round-key copy, SHA message block and chaining value, HMAC key/pad "
+        "buffers) - counted clearing calls - and the ChaCha20-Poly1305 context has its key-stream remainder and Poly1305 key zeroed after finalize; the C SHA manager wipes the message tail from the lane's extra_block before the job is handed back (checked on the real scheduler, bounded history).",
+   note="Registers, NASM stack frames and NASM lane clearing are not C-visible: not decided. Clearing is observed as calls to the (modelled) NASM zeroing primitive, not as an exit-state scan of the C stack.",
+   technique="CBMC obligations on clearing calls / context contents of the real C code", design="DESIGN.md §3 C13"),
+ "C17": dict(
+   text="Census of every writable object of static storage duration in all C translation units of lib/ (goto-cc symbol tables, rebuilt each run): exactly the known ones exist (error mirror, cached CPUID leaves, "
+        "session counter, one never-assigned dispatch table); a new process-wide mutable object fails the check. Together with the frame proofs (ring operations touch only their own manager) this is the sequential half of independence.",
+   note="Thread interleavings are not decided: CBMC contracts have no concurrency semantics. NASM data sections are not scanned.",
+   technique="static fact from goto-cc symbol tables + DFCC frame proofs", category="other", design="DESIGN.md §3 C17"),
+ "C19": dict(
+   text="SAFE_LOOKUP discipline of the DES block function in C: for all blocks and round keys all 128 S-box evaluations go through the constant-time lookup primitive over a whole 64-entry table (a direct "
+        "table[secret] read lowers the count and fails).",
+   note="The lookup primitives themselves, KASUMI/SNOW3G code, the address trace of non-table accesses and compiler-introduced branches are not decided.",
+   technique="CBMC counting obligation on the real C code with a model of the NASM lookup primitive", design="DESIGN.md §3 C19"),
 }
 NOT_APPLICABLE = {
  "C18": "callee-saved registers, RSP, DF and MXCSR are not C-visible state; no CBMC contract can mention them and the functions at issue are hand-written NASM (DESIGN.md §3 C18)",
